@@ -342,7 +342,9 @@ let handle_hist c =
     if prop = "C10" then begin
       let magic_v1 = (List.rev file |> fun l -> match l with a :: b :: c' :: d :: _ -> [d; c'; b; a] | _ -> []) in
       let is_v1 = hex_of_bytes magic_v1 = "4c4d3276" in
-      spec_ok c "C10.open" (get c "meta" = [(if is_v1 then "0" else "1"); string_of_n cfg.wc_codec; string_of_int (List.length es)])
+      (* the stored count: the number of entries, or the value the harness patched into the trailer *)
+      let stored = (match get_all c "storedcount" with [[n]] -> n | _ -> string_of_int (List.length es)) in
+      spec_ok c "C10.open" (get c "meta" = [(if is_v1 then "0" else "1"); string_of_n cfg.wc_codec; stored])
         ("open reports " ^ String.concat " " (get c "meta"))
     end;
     if es <> [] then begin
